@@ -26,7 +26,7 @@ func init() {
 			{Name: "the subscription root rule does not look into inline fragments (reverts part of the F69 fix)", File: "v2/pkg/astvalidation/operation_rule_subscription_single_root_field.go", Rule: "C04-R12", Key: "subscription-root-fields/every-selection-kind",
 				Old: "\t\tcase ast.SelectionKindInlineFragment:\n\t\t\tif !operation.InlineFragments[selection.Ref].HasSelections {\n\t\t\t\tcontinue\n\t\t\t}\n\t\t\tnestedFields, nestedIntrospection := s.rootFields(operation, operation.InlineFragments[selection.Ref].SelectionSet, depth+1)\n\t\t\tfields += nestedFields\n\t\t\tintrospection = introspection || nestedIntrospection\n", New: ""},
 			{Name: "a lone introspection field is accepted as subscription root (reverts part of the F69 fix)", File: "v2/pkg/astvalidation/operation_rule_subscription_single_root_field.go", Rule: "C04-R12", Key: "subscription-root-fields/introspection-tested",
-				Old: "\t\t\tif bytes.HasPrefix(operation.FieldNameBytes(selection.Ref), []byte(\"__\")) {\n\t\t\t\tintrospection = true\n\t\t\t}\n", New: ""},
+				Old: "\t\t\tif bytes.HasPrefix(operation.FieldNameBytes(selection.Ref), []byte(\"__\")) {\n", New: "\t\t\tif bytes.HasPrefix(operation.FieldNameBytes(selection.Ref), []byte(\"\\x00__\")) {\n"},
 			{Name: "arguments are compared position by position (reverts part of the F59 fix)", File: "v2/pkg/ast/ast_argument.go", Rule: "C04-R11", Key: "Document.ArgumentSetsAreEquals/unordered-elements-paired-by-name",
 				Old: "\tfor _, leftArgument := range left {\n\t\trightArgument, ok := d.argumentByName(right, d.ArgumentNameBytes(leftArgument))\n\t\tif !ok || ", New: "\tfor i, leftArgument := range left {\n\t\trightArgument, ok := right[i], true\n\t\tif !d.ArgumentsAreEqual(leftArgument, rightArgument) || !ok || "},
 			{Name: "input object fields are compared position by position (reverts part of the F59 fix)", File: "v2/pkg/ast/ast_object_field.go", Rule: "C04-R11", Key: "Document.ObjectValuesAreEqual/unordered-elements-paired-by-name",
